@@ -72,6 +72,26 @@ L['C20'] = dict(modules=['Schc.Properties.C20'], level='proof', technique='Lean 
     theorems=[T('C20_total', 'partial', 'bare decompress is total for every bit string, rules without compute fields'),
               T('C20_manager_total', 'partial', 'manager decompress gives a buffer or RuleIDMatchError for every bit string, rule sets without compute fields')],
     level_text='PARTIAL: proved for every bit string and every rule set satisfying the decompressor\'s own type asserts whose rules have no compute fields. For rules with compute fields the totality of the compute functions on partly rebuilt field lists is not yet a theorem (statement kept in Schc.C20_total_compute_statement); that part rests on the correspondence stream (truncations, 1-3 flips, random 0..2000-bit strings, id-only strings, oversized announcements against compute rules on all stacks).')
+
+L['C07'] = dict(modules=['Schc.Properties.C07'], level='proof', technique='Lean 4 cursor invariants over the CoAP / SCTP walks + generated fixed layouts',
+    theorems=[T('C07_header', 'full', 'every header parser, every accepted buffer: fields spell the first header-length bits; header length = total field length <= buffer length'),
+              T('C07_packet', 'full', 'every parser configuration: fields ++ payload = input buffer, raw = input'),
+              T('C07_nocompression_reproduces', 'full', 'a no-compression rule reproduces any parsed packet')],
+    level_text='Proved over the model for every buffer any parser accepts (well-formed or not): fixed layouts by a generic contiguity lemma against the tables regenerated from the source, CoAP by the cursor invariant of the option loop (incl. the payload marker and truncated tokens), SCTP by the chunk/parameter walk invariants and the post-check that a chunk type\'s fields cover the chunk value, chaining by composition.')
+L['C08'] = dict(modules=['Schc.Properties.C08'], level='proof', technique='Lean 4 `decide` on layouts regenerated from the parsers\' AST vs RFC tables; structured-generator correspondence for variable parts',
+    theorems=[T('C08_ipv4_layout', 'full', 'IPv4 field boundaries extracted from the source = RFC 791'), T('C08_ipv6_layout', 'full', '= RFC 8200'),
+              T('C08_udp_layout', 'full', '= RFC 768'), T('C08_coap_fixed_layout', 'full', 'first 32 bits = RFC 7252 §3'),
+              T('C08_sctp_layouts', 'full', 'common header, chunk header, DATA / INIT / INIT ACK / SACK / SHUTDOWN fixed parts, parameter header = RFC 9260'),
+              T('C08_chaining', 'full', 'next-protocol tables: 17/132 after IP, 5683/132 after UDP; explicit stacks'),
+              T('C08_ipv6_fields', 'full', 'IPv6 parser returns exactly the RFC field list'), T('C08_ipv4_fields', 'full', 'IPv4 …'), T('C08_udp_fields', 'full', 'UDP …')],
+    level_text='PARTIAL as a proof: the fixed field boundaries of all five protocols and the chaining tables are machine-checked against tables written from the RFCs, on tables re-extracted from the source on every run (a moved boundary breaks a `decide`). The variable parts — CoAP option delta/length/extension/value fields and occurrence counters, SCTP per-chunk-type fields, parameters, 32-bit padding, agreement of predictive and explicit stacks — are compared on every run with field lists produced by independent RFC encoders (every delta/length class incl. 12/13, 268/269, token 0..8, every chunk type with optional parts); no parse∘encode theorem is claimed for them.')
+L['C14'] = dict(modules=['Schc.Properties.C14'], level='proof', technique='Lean 4 totality theorems with fuel (progress lemmas for every walk) + generated registry tables',
+    theorems=[T('C14_total', 'full', 'every parser configuration, every bit string: a descriptor or ParserError — no hang, no foreign exception'),
+              T('C14_header', 'full', 'each header parser, with/without prediction, CoAP in both option modes'),
+              T('C14_coap_progress', 'full', 'each CoAP option iteration consumes >= 8 bits within the buffer'),
+              T('C14_sctp_progress', 'full', 'each SCTP chunk consumes >= 32 bits'),
+              T('C14_registry', 'full', 'every next-protocol number chained on has a registered parser (regenerated tables)')],
+    level_text='Proved for every bit string of any length and alignment: with the linear fuel |b| + 2 the model never answers `hang` and never any error but ParserError. "Promptly" is a step bound (iterations <= |b|/8 + 1), not wall-clock time; the harness additionally runs the real parsers under a watchdog.')
 for k in L:
     L[k]['level_note'] = NOTE
     L[k]['design_ref'] = 'DESIGN.md §6 ' + k
